@@ -19,6 +19,7 @@
    replaces).  That needs the write-loop model, which is built under C05/C11 (DESIGN section 6, items
    1 and 2); this file proves what that proof will use from the allocator. *)
 From SG Require Import Base.Prelude C07.Allocator C07.AllocatorInv C07.AllocatorProofs C07.Principal C07.PrincipalProofs.
+From SG Require Import C07.Cluster C07.ClusterInv C07.ClusterProofs C07.ClusterBound C07.ClusterRollback C07.ClusterSelf C07.ClusterSim.
 From SG Require C05.WriteLoop C05.WriteLoopProofs C05.WriteLoopTheorems.
 Open Scope N_scope.
 
@@ -169,6 +170,188 @@ Theorem C07_document_sequences_increase : forall ac tab ops sched,
 Proof. exact WriteLoopTheorems.acked_seq_increasing. Qed.
 Print Assumptions C07_document_sequences_increase.
 
+(* ================= the CLUSTER model (Cluster.v) =================
+
+   Several nodes share the counter; a node's step performs at most one operation on the counter document
+   (calls are suspended at the program points PGt / PFixCas / PFixIncr / PGtFixed and resumed by XTurn), the
+   batch size of any node can be overwritten with any value of [1, maxBatchSize] at any time (XSetBatch: the
+   adaptive sizing is one such adversary), a node can crash at any point, also in the middle of a call
+   (XCrash: dropped without Stop), and the counter document can go back (XRollback).  [xrun xinit ops] for an
+   ARBITRARY op list: all interleavings.  [no_rollback ops]: the counter document only grows. *)
+
+(* the model of Allocator.v is this model restricted to its ops: same trace, same counter, same windows *)
+Theorem C07_cluster_extends_allocator : forall ops st tr, run init ops = (st, tr) ->
+  exists xst, xrun xinit (map embed ops) = (xst, tr) /\ c_counter xst = counter st /\
+    forall i, n_last (c_nodes xst i) = last (allocs st i) /\ n_max (c_nodes xst i) = max (allocs st i) /\
+              n_batch (c_nodes xst i) = batch (allocs st i) /\ n_stopped (c_nodes xst i) = stopped (allocs st i).
+Proof. exact cluster_extends_allocator. Qed.
+Print Assumptions C07_cluster_extends_allocator.
+
+(* no sequence is handed to two callers on any nodes; more: no number is disposed of twice (handed /
+   released / reserved by the foreign user), whatever the batch sizes, whoever crashes *)
+Theorem C07_multi_node_unique : forall ops st tr, no_rollback ops -> xrun xinit ops = (st, tr) ->
+  (forall n m e1 e2 s, n <> m -> nth_error tr n = Some e1 -> nth_error tr m = Some e2 ->
+                       covers e1 s -> covers e2 s -> False) /\
+  NoDup (handed tr).
+Proof. exact multi_node_unique. Qed.
+Print Assumptions C07_multi_node_unique.
+
+Theorem C07_multi_node_monotone_per_node : forall ops st tr, no_rollback ops -> xrun xinit ops = (st, tr) ->
+  forall l1 l2 i s1 f1 s2 f2, tr = l1 ++ EHand i s1 f1 :: l2 -> In (EHand i s2 f2) l2 -> s1 < s2.
+Proof. exact multi_node_monotone. Qed.
+Print Assumptions C07_multi_node_monotone_per_node.
+
+(* accounting.  At every moment (0, counter] is partitioned into the numbers disposed of by exactly one
+   event and the numbers held in exactly one node's window.  When every node that acted was stopped cleanly,
+   every number up to the counter was handed out exactly once or released exactly once (or is the foreign
+   user's).  With crashes (every node stopped or crashed): handed out at most once, released at most once,
+   and a number is unaccounted only inside the last reservation of a crashed node. *)
+Theorem C07_multi_node_accounted : forall ops st tr, no_rollback ops -> xrun xinit ops = (st, tr) ->
+  (forall s, 1 <= s -> s <= c_counter st ->
+     (covered_once tr s /\ forall i, ~ xheld st i s) \/
+     ((forall e, In e tr -> ~ covers e s) /\ exists i, xheld st i s /\ forall j, xheld st j s -> j = i)) /\
+  (forall e s, In e tr -> covers e s -> 1 <= s /\ s <= c_counter st) /\
+  (forall i s, xheld st i s -> 1 <= s /\ s <= c_counter st) /\
+  ((forall i, In i (xactors ops) -> n_stopped (c_nodes st i) = true) ->
+   forall s, 1 <= s -> s <= c_counter st -> covered_once tr s /\ forall i, ~ xheld st i s) /\
+  ((forall i, In i (xactors ops) -> dead (c_nodes st i) = true) ->
+   forall s, 1 <= s -> s <= c_counter st ->
+     (covered_once tr s /\ forall i, ~ xheld st i s) \/
+     ((forall e, In e tr -> ~ covers e s) /\
+      exists i, n_crashed (c_nodes st i) = true /\ n_stopped (c_nodes st i) = false /\ xheld st i s /\
+                forall j, xheld st j s -> j = i)).
+Proof. exact multi_node_accounted. Qed.
+Print Assumptions C07_multi_node_accounted.
+
+(* reserved-but-unused numbers of a crashed node are lost: never handed out, never released, by anybody *)
+Theorem C07_crashed_window_never_reused : forall ops st tr ops' st' tr' i s,
+  no_rollback ops -> no_rollback ops' ->
+  xrun xinit ops = (st, tr) -> n_crashed (c_nodes st i) = true -> xheld st i s ->
+  xrun st ops' = (st', tr') ->
+  xheld st' i s /\ forall e, In e (tr ++ tr') -> ~ covers e s.
+Proof. exact crashed_window_never_reused. Qed.
+Print Assumptions C07_crashed_window_never_reused.
+
+(* nextSequenceGreaterThan(x): the result is above x, the step that returns it releases every number below
+   the result that the node held or that the step reserved, and what the node holds afterwards is above the
+   result (while a call is suspended after its read the node holds nothing: C07_no_false_rollback_detection
+   and the window released by the first step) *)
+Theorem C07_greater_than_result : forall ops st tr o st' ev i s x,
+  no_rollback ops -> xrun xinit ops = (st, tr) -> is_rollback o = false ->
+  xstep st o = (st', ev) -> In (EHand i s (Some x)) ev ->
+  i = xactor o /\ (x < maxU64 -> x < s) /\
+  (forall n, n < s -> xheld st i n \/ (c_counter st < n /\ n <= c_counter st') ->
+             exists lo hi, In (ERange lo hi) ev /\ lo <= n /\ n <= hi) /\
+  (forall n, xheld st' i n -> s < n).
+Proof. exact greater_than_result. Qed.
+Print Assumptions C07_greater_than_result.
+
+(* while the counter document only grows, the rollback branches of the code are dead: no node ever enters
+   _fixSyncSeqRollback, windows stay below the counter, the value read by nextSequenceGreaterThan is never
+   below last (this is C07_window_wellformed for the cluster model) *)
+Theorem C07_no_false_rollback_detection : forall ops st tr i, no_rollback ops -> xrun xinit ops = (st, tr) ->
+  c_hw st = c_counter st /\ n_last (c_nodes st i) <= n_max (c_nodes st i) /\ n_max (c_nodes st i) <= c_counter st /\
+  1 <= n_batch (c_nodes st i) /\ n_batch (c_nodes st i) <= maxBatchSize /\
+  match n_pc (c_nodes st i) with
+  | PIdle => True
+  | PGt x r => n_last (c_nodes st i) <= r /\ r <= c_counter st
+  | _ => False
+  end.
+Proof. exact no_false_rollback_detection. Qed.
+Print Assumptions C07_no_false_rollback_detection.
+
+(* ---- the bound MaxSequencesToRelease ---- *)
+
+(* in ANY state, the step that returns ErrMaxSequenceReleasedExceeded leaves every window, batch size and
+   flag of every node as it was, writes no unused-sequence document, hands out nothing *)
+Theorem C07_max_release_error_unchanged : forall st o st' ev i,
+  xstep st o = (st', ev) -> In (EErr i) ev ->
+  ev = [EErr i] /\ i = xactor o /\
+  (forall j, same_window (c_nodes st j) (c_nodes st' j)) /\
+  n_pc (c_nodes st' i) = PIdle /\
+  (forall j, j <> i -> c_nodes st' j = c_nodes st j).
+Proof. exact err_step_unchanged. Qed.
+Print Assumptions C07_max_release_error_unchanged.
+
+(* ... and the counter as well while the counter document only grows; the error is the answer of a call
+   suspended after its read of the counter, whose floor is more than the bound above the value read *)
+Theorem C07_max_release_error_counter : forall ops st tr o st' ev i,
+  no_rollback ops -> xrun xinit ops = (st, tr) -> xstep st o = (st', ev) -> In (EErr i) ev ->
+  c_counter st' = c_counter st /\
+  exists x r f, o = XTurn i f /\ n_pc (c_nodes st i) = PGt x r /\ r <= c_counter st /\
+                r < target_of x /\ MaxSequencesToRelease < x - r.
+Proof. exact err_step_counter. Qed.
+Print Assumptions C07_max_release_error_counter.
+
+(* the whole call on a node whose window is below the counter: the only effect is that the window the node
+   held is released (once: it is empty afterwards); counter, batch size, the other nodes untouched *)
+Theorem C07_max_release_error_call : forall st i x f f',
+  xbusy (c_nodes st i) = false -> n_last (c_nodes st i) <= n_max (c_nodes st i) -> n_max (c_nodes st i) <= c_counter st ->
+  x < maxU64 -> MaxSequencesToRelease < x - c_counter st ->
+  exists st', xrun st [XGT i x f; XTurn i f'] =
+                (st', (if n_last (c_nodes st i) <? n_max (c_nodes st i)
+                       then release_range (n_last (c_nodes st i) + 1) (n_max (c_nodes st i)) else []) ++ [EErr i]) /\
+              c_counter st' = c_counter st /\
+              n_last (c_nodes st' i) = n_max (c_nodes st i) /\ n_max (c_nodes st' i) = n_max (c_nodes st i) /\
+              n_batch (c_nodes st' i) = n_batch (c_nodes st i) /\ n_once (c_nodes st' i) = n_once (c_nodes st i) /\
+              n_pc (c_nodes st' i) = PIdle /\
+              (forall j, j <> i -> c_nodes st' j = c_nodes st j).
+Proof. exact gt_call_error. Qed.
+Print Assumptions C07_max_release_error_call.
+
+(* ---- the counter document goes back (bucket rollback, document deleted): what _fixSyncSeqRollback delivers.
+   What it does not deliver is refuted in C07_Refuted.v. ---- *)
+
+(* uniqueness, if the counter is restored above the highest reserved number before anybody takes fresh
+   numbers from it: every step either starts with the counter at its high-water mark or disposes only of
+   numbers its node already held ([run_safe]); then nothing is disposed of twice -- any number of
+   rollbacks, also in the middle of calls, crashes, adversarial batch sizes *)
+Theorem C07_rollback_unique_if_restored : forall ops st tr,
+  run_safe xinit ops -> xrun xinit ops = (st, tr) ->
+  (forall n m e1 e2 s, n <> m -> nth_error tr n = Some e1 -> nth_error tr m = Some e2 ->
+                       covers e1 s -> covers e2 s -> False) /\
+  NoDup (handed tr) /\
+  (forall e s i, In e tr -> covers e s -> ~ xheld st i s) /\
+  (forall i j s, xheld st i s -> xheld st j s -> i = j).
+Proof. exact rollback_unique_if_restored. Qed.
+Print Assumptions C07_rollback_unique_if_restored.
+
+(* an idle node whose window reaches above the rolled-back counter is always safe: it serves from its window
+   or it notices the rollback; it never takes a fresh number *)
+Theorem C07_rollback_idle_node_detects : forall c a o c' a' ev,
+  n_pc a = PIdle -> n_last a <= n_max a -> c < n_max a ->
+  match o with XEnvIncr _ | XRollback _ => False | _ => True end ->
+  xstep_node c a o = (c', a', ev) -> no_fresh_claim a a' ev.
+Proof. exact idle_above_counter_safe. Qed.
+Print Assumptions C07_rollback_idle_node_detects.
+
+(* QUIET rollbacks (the counter goes back only while no live node is in the middle of a call), any number
+   of them, any number of nodes: each node's numbers still increase, nextSequenceGreaterThan(x) still
+   returns more than x, and a node never disposes of the same number twice -- duplicates after a rollback
+   are always between different nodes *)
+Theorem C07_rollback_monotone_per_node : forall ops st tr, run_quiet xinit ops -> xrun xinit ops = (st, tr) ->
+  forall l1 l2 i s1 f1 s2 f2, tr = l1 ++ EHand i s1 f1 :: l2 -> In (EHand i s2 f2) l2 -> s1 < s2.
+Proof. exact rollback_monotone. Qed.
+Print Assumptions C07_rollback_monotone_per_node.
+
+Theorem C07_rollback_greater_than_result : forall ops st tr, run_quiet xinit ops -> xrun xinit ops = (st, tr) ->
+  forall i s x, In (EHand i s (Some x)) tr -> x < maxU64 -> x < s.
+Proof. exact rollback_floor. Qed.
+Print Assumptions C07_rollback_greater_than_result.
+
+Theorem C07_rollback_no_self_duplicate : forall ops i, run_quiet xinit ops -> excl (xrun_of i xinit ops).
+Proof. exact rollback_no_self_duplicate. Qed.
+Print Assumptions C07_rollback_no_self_duplicate.
+
+(* hence on a single-node deployment quiet rollbacks never produce a duplicate *)
+Theorem C07_single_node_rollback_unique : forall ops i st tr,
+  single_node i ops -> run_quiet xinit ops -> xrun xinit ops = (st, tr) ->
+  (forall n m e1 e2 s, n <> m -> nth_error tr n = Some e1 -> nth_error tr m = Some e2 ->
+                       covers e1 s -> covers e2 s -> False) /\
+  NoDup (handed tr).
+Proof. exact single_node_rollback_unique. Qed.
+Print Assumptions C07_single_node_rollback_unique.
+
 (* ---- non-vacuity: three allocators, an interleaved nextSequenceGreaterThan, batch growth, idle
    release, a principal update with two lost CAS races, stops ---- *)
 Example C07_nonvacuous :
@@ -185,3 +368,25 @@ Proof.
   vm_compute. repeat split; try solve [repeat (first [left; reflexivity | right])].
   intros i Hi. repeat (destruct Hi as [<-|Hi]; [reflexivity|]). destruct Hi.
 Qed.
+
+(* non-vacuity of the cluster theorems: adversarial batch sizes, a crash holding a window, a
+   nextSequenceGreaterThan interleaved with another node, the bound, a detected rollback with both fixes *)
+Example C07_cluster_nonvacuous :
+  let ops := [XSetBatch 0 5; XNext 0 false; XNext 1 false; XCrash 0; XNext 1 true; XSetBatch 2 3; XGT 2 20 false;
+              XNext 1 true; XTurn 2 true; XGT 1 (30 + MaxSequencesToRelease) false; XTurn 1 false; XStop 1; XStop 2] in
+  let '(st, tr) := xrun xinit ops in
+  no_rollback ops /\
+  c_counter st = 23 /\ handed tr = [1; 6; 7; 8; 21] /\ In (ERange 9 20) tr /\ In (EErr 1) tr /\
+  n_crashed (c_nodes st 0) = true /\ xheld st 0 2 /\ xheld st 0 5 /\
+  (forall i, In i (xactors ops) -> dead (c_nodes st i) = true).
+Proof.
+  vm_compute. split; [repeat constructor|].
+  repeat split; try discriminate; try solve [repeat (first [left; reflexivity | right])].
+  intros i Hi. repeat (destruct Hi as [<-|Hi]; [reflexivity|]). destruct Hi.
+Qed.
+
+Example C07_rollback_nonvacuous :
+  let ops := [XNext 0 true; XNext 0 true; XNext 0 true; XReleaseIdle 0; XRollback 1; XNext 0 true; XTurn 0 true;
+              XTurn 0 true; XRollback 2; XGT 0 5000 false; XTurn 0 true; XTurn 0 true; XTurn 0 true; XTurn 0 true] in
+  single_node 0 ops /\ handed (snd (xrun xinit ops)) = [1; 2; 3; 508; 5001].
+Proof. split; [repeat constructor | vm_compute; reflexivity]. Qed.
